@@ -69,6 +69,7 @@ package tree
 //@   requires t != nil && len(t.zeroHashes) == 33
 //@   ensures[proof-verifies] (err == nil && !hasUsedZeroHashes) ==> foldUp(desc(rhtL(t), rhtR(t), root, index, 0), siblings, index, 32) == root
 //@   ensures[missing-means-flag] (err == nil && !hasUsedZeroHashes) ==> rhtHas(t)[root]
+//@   ensures[flag-means-a-path-node-is-not-stored] (err == nil && hasUsedZeroHashes) ==> exists(h, 1, 33, !rhtHas(t)[desc(rhtL(t), rhtR(t), root, index, h)])
 //@   loop 0 unroll 32
 
 // ---- the bridge contract's deposit tree (DepositContractBase), transcribed (assumption A3).
@@ -306,3 +307,12 @@ package tree
 //@   props C08 C12
 //@   trusted
 //@   sqltext "SELECT * FROM %s WHERE hash = $1;"
+
+// the proof served to callers (C08, C09, C12): when every node on the path from the root to the position is stored -
+// which is the case for every position present under a recorded root (storeNodes stores the whole path) - the proof
+// folds from the leaf reached by that path to exactly the requested root. (When a path node is not stored the function
+// answers with zero-hash siblings and no error: that case is outside the property's quantifier and is not claimed.)
+//@ func (t *Tree) GetProof
+//@   props C08 C09 C12
+//@   requires t != nil && len(t.zeroHashes) == 33
+//@   ensures[served-proof-verifies-when-the-path-is-stored] (result1 == nil && forall(h, 1, 33, rhtHas(t)[desc(rhtL(t), rhtR(t), root, index, h)])) ==> foldUp(desc(rhtL(t), rhtR(t), root, index, 0), result0, index, 32) == root
